@@ -268,7 +268,7 @@ theorem ne_underflow (v : VM) (h : v.stack.length < 2) : (bNe v).2 = .err (.ps "
 
 /-- objects that `eq` cannot compare: anything but numbers, strings, names (and two dictionaries) -/
 def comparable : Obj → Bool
-  | .int _ | .real _ | .str .. | .name _ => true
+  | .int _ | .real _ | .str .. | .name _ | .bool _ | .arr .. | .proc .. | .mark => true
   | _ => false
 
 theorem equalObjs_none (v : VM) (a b : Obj) (hd : ∀ x y, ¬ (a = .dict x ∧ b = .dict y))
@@ -850,9 +850,10 @@ def typeName : Obj → Name
   | .mark => "marktype"
   | .cmapInfo _ => ""
 
-/-- `type` leaves its operand and pushes the type name (Go: the operand is not popped) -/
+/-- `type` replaces its operand by the name of its type (PLRM: `any type name`; repaired defect: the operand
+used to stay on the stack) -/
 theorem type_spec (v : VM) (x : Obj) (rest : List Obj) (h : v.stack = x :: rest) (hx : ∀ r, x ≠ .cmapInfo r) :
-    bType v = ({ v with stack := .name (typeName x) :: x :: rest }, .ok) := by
+    bType v = ({ v with stack := .name (typeName x) :: rest }, .ok) := by
   unfold bType
   rw [h]
   cases x <;> first | exact absurd rfl (hx _) | simp [typeName, VM.push, okRes, h]
@@ -1502,6 +1503,51 @@ theorem eq_dict (v : VM) (a b : Nat) (rest : List Obj) (hst : v.stack = .dict b 
   unfold bEq bEqNe
   rw [hst]
   simp [equalObjs, VM.push, okRes]
+
+/-- booleans are `eq` exactly when they have the same value (PLRM: simple objects compare by value) -/
+theorem eq_bool (v : VM) (a b : Bool) (rest : List Obj) (hst : v.stack = .bool b :: .bool a :: rest) :
+    bEq v = ({ v with stack := .bool (a == b) :: rest }, .ok) := by
+  unfold bEq bEqNe
+  rw [hst]
+  simp [equalObjs, normalize, VM.push, okRes]
+/-- a boolean is never `eq` to a number, a string or a name -/
+theorem eq_bool_other (v : VM) (a : Bool) (b : Obj) (rest : List Obj) (hst : v.stack = b :: .bool a :: rest)
+    (hb : (∃ n, b = .int n) ∨ (∃ x, b = .real x) ∨ (∃ n, b = .name n) ∨ (∃ r o l, b = .str r o l)) :
+    bEq v = ({ v with stack := .bool false :: rest }, .ok) := by
+  unfold bEq bEqNe
+  rw [hst]
+  rcases hb with ⟨n, rfl⟩ | ⟨x, rfl⟩ | ⟨n, rfl⟩ | ⟨r, o, l, rfl⟩ <;> simp [equalObjs, normalize, VM.push, okRes]
+
+/-- two non-empty arrays are `eq` exactly when they are the same composite object: same store, same start, same
+    length (PLRM: composite objects are equal only if they share the same value); empty arrays are all equal -/
+theorem eq_array (v : VM) (r o l r' o' l' : Nat) (rest : List Obj)
+    (hst : v.stack = .arr r' o' l' :: .arr r o l :: rest) (hl : 0 < l) :
+    bEq v = ({ v with stack := .bool (r == r' && o == o' && l == l') :: rest }, .ok) := by
+  unfold bEq bEqNe
+  rw [hst]
+  have h0 : l ≠ 0 := by omega
+  by_cases h1 : l' = 0
+  · subst h1
+    have : (l == 0) = false := by simpa using h0
+    simp [equalObjs, normalize, VM.push, okRes, h0, this]
+  · simp [equalObjs, normalize, VM.push, okRes, h0, h1]
+theorem eq_array_self (v : VM) (r o l : Nat) (rest : List Obj)
+    (hst : v.stack = .arr r o l :: .arr r o l :: rest) :
+    bEq v = ({ v with stack := .bool true :: rest }, .ok) := by
+  unfold bEq bEqNe
+  rw [hst]
+  by_cases h0 : l = 0 <;> simp [equalObjs, normalize, VM.push, okRes, h0]
+theorem eq_proc_self (v : VM) (r o l : Nat) (rest : List Obj)
+    (hst : v.stack = .proc r o l :: .proc r o l :: rest) :
+    bEq v = ({ v with stack := .bool true :: rest }, .ok) := by
+  unfold bEq bEqNe
+  rw [hst]
+  by_cases h0 : l = 0 <;> simp [equalObjs, normalize, VM.push, okRes, h0]
+theorem eq_mark (v : VM) (rest : List Obj) (hst : v.stack = .mark :: .mark :: rest) :
+    bEq v = ({ v with stack := .bool true :: rest }, .ok) := by
+  unfold bEq bEqNe
+  rw [hst]
+  simp [equalObjs, normalize, VM.push, okRes]
 
 /-- `copy` on dictionaries inserts the source's entries into the destination, which is returned -/
 theorem copy_dict_spec (v : VM) (r r2 : Nat) (rest : List Obj) (h : v.stack = .dict r2 :: .dict r :: rest) :
